@@ -609,6 +609,7 @@ package parse
 
 //@ func (*tree).parseMapLiteral
 //@   like exprFn
+//@   at call mapupdate#0 assert[no-item-of-a-map-literal-replaces-an-earlier-one;C01,C07] !haskey(m, key)
 //@   measure rem(t), 3
 //@   stackbound 10000 - t.depth, 1
 //@   ensures result != nil
